@@ -94,3 +94,24 @@ Example ex3_fanin_run :
     puts tr = [yp 0 0; yp 1 1] /\ fwds tr = [yp 1 1; yp 0 0] /\ drops tr = [] /\
     hands 1 tr = [yp 0 0; yp 1 1] /\ held ex3_net s = [] /\ urgent ex3_net s = false /\ deadline ex3_net s = None.
 Proof. eexists. eexists. split; [vm_compute; reflexivity|]. vm_compute. repeat split. Qed.
+
+(* ---- fan-out: Wire(delay 0) -> FlowDemux(two outputs, no default) -> two rate-0 ports; flow 2 has no route ------ *)
+From ONL Require Import Route.Demux Elem.ComposeFan.
+Local Open Scope Q_scope.
+
+Definition ex4_route : Z -> Demux.output := flowdemux true {| fd_nouts := 2%nat; fd_default := false |}.
+Definition ex4_net : elem := fanout ex4_route 0 (wire_elem None 0) (port_elem ex2_port 0) (port_elem ex2_port 0).
+Definition VW (a : waction) : iact (lab ex4_net) := IStep (inl a).
+Definition VB (a : paction) : iact (lab ex4_net) := IStep (inr (inr (inl a))).
+Definition VC (a : paction) : iact (lab ex4_net) := IStep (inr (inr (inr a))).
+Definition ex4_acts : list (iact (lab ex4_net)) :=
+  [VW WInit; VB PInit; VC PInit; IPut (yp 0 0); IPut (yp 1 1); IPut (yp 2 2); VW WStoreCb; VW (WGet None (Some 0));
+   VW WStoreCb; VW WStoreCb; VW (WGet None (Some 0)); VW (WGet None (Some 0));
+   VC PStoreCb; VC Port.PGet; VB PStoreCb; VB Port.PGet].
+
+Example ex4_fanout_run :
+  exists s tr, run ex4_net (init ex4_net) ex4_acts = Some (s, tr) /\
+    puts tr = [yp 0 0; yp 1 1; yp 2 2] /\ fwds tr = [yp 1 1; yp 0 0] /\ drops tr = [yp 2 2] /\
+    hands 0 tr = [yp 0 0; yp 1 1; yp 2 2] /\ hands 1 tr = [yp 0 0; yp 1 1] /\
+    held ex4_net s = [] /\ urgent ex4_net s = false /\ deadline ex4_net s = None.
+Proof. eexists. eexists. split; [vm_compute; reflexivity|]. vm_compute. repeat split. Qed.
